@@ -24,6 +24,7 @@ pub fn seed_from_env() -> u64 {
 }
 
 pub fn silence_panics() {
+  if std::env::var("GBV_NOISY").is_ok() { return; }
   std::panic::set_hook(Box::new(|_| {}));
 }
 
